@@ -106,6 +106,18 @@ void jcsa_json_only(const std::string& s)
     (void)w;
 }
 
+// element type constructible from the container itself (streaming encode of it does not compile, N6)
+void jcsa_use_vector_of_json(const jsoncons::json& j, const std::string& s)
+{
+    auto v = j.as<std::vector<jsoncons::json>>();
+    auto v2 = jsoncons::decode_json<std::vector<jsoncons::json>>(s);
+    // positive control for the brace-initialisation rule: must be found on every run
+    std::vector<jsoncons::json> jcsa_control_brace{std::vector<jsoncons::json>()};
+    (void)v2; (void)jcsa_control_brace;
+    bool is = j.is<std::vector<jsoncons::json>>();
+    (void)v; (void)is;
+}
+
 void jcsa_use_reflect(const std::string& s, const std::vector<uint8_t>& b)
 {
     jcsa_roundtrip<std::vector<int64_t>>(s, b);
